@@ -1,6 +1,6 @@
 (* C13 — valid use never panics, poisons or hangs the container. *)
 From Coq Require Import List Arith ZArith.
-From LK Require Import AList Model Observe Inv StepInv NoPanic DropInv Stream Fine.
+From LK Require Import AList Model Observe Inv StepInv NoPanic DropInv Stream Fine FineSites.
 Import ListNotations.
 
 (* No label whatsoever makes the library panic in a reachable state.  RPanic covers every
@@ -64,6 +64,28 @@ Proof. exact announced_is_delivered. Qed.
 (* non-vacuity: guard 0 on key 1 (no value), an async waiter queued behind it; the drop of guard 0 releases
    the key (first half), the waiter takes the guard and inserts a value while the drop still holds the global
    lock, then the drop finishes (second half: the entry stays, one replica left) *)
+(* The pause points that need no commutation theorem (DESIGN 4.7), as statements about the model.  Site 9: when the
+   clean-up after a failed try takes its key's mutex -- only if its own handle is the last one -- no guard on the key
+   exists and no other call in flight holds a handle for it: nobody can see that mutex being taken. *)
+Theorem C13_cleanup_last_handle_is_alone : forall s a sh k e,
+  Inv s -> aget a (s_ops s) = Some (PCleanup sh k) -> aget k (s_ents s) = Some e -> e_repl e = 1 ->
+  (forall g, ~ In (g, k) (s_guards s)) /\
+  (forall a' p', a' <> a -> aget a' (s_ops s) = Some p' -> pc_handles p' k = 0).
+Proof. exact cleanup_last_handle_is_alone. Qed.
+
+(* Site 4: an entry whose only handle is the guard that locks it -- the placeholder a look-up has just inserted and
+   pre-locked -- cannot be reached by any call in flight. *)
+Theorem C13_entry_held_by_its_only_handle_is_unreachable : forall s k e g,
+  Inv s -> aget k (s_ents s) = Some e -> e_repl e = 1 -> e_owner e = Some (OwnG g) ->
+  forall a p, aget a (s_ops s) = Some p -> pc_handles p k = 0.
+Proof. exact entry_held_by_its_only_handle_is_unreachable. Qed.
+
+(* Site 5 and every other pause inside a critical section: what the other agents can do meanwhile (the lock-free steps
+   of Fine.v) never releases a key mutex -- one that is owned before such a step is owned after it. *)
+Theorem C13_lockfree_steps_release_nothing : forall c s l s' o k,
+  lockfree s l = true -> step c s l = ROk s' o -> owned s k -> owned s' k.
+Proof. exact lockfree_step_releases_nothing. Qed.
+
 Example C13_fine_witness :
   exists s evs s',
     run (mkCfg true) [LStart 0 (CLock ShBlocking 1 None); LResume 0 []; LStart 1 (CLock ShAsync 1 None);
